@@ -683,7 +683,7 @@ impl Display for LinearModel {
             let name = if c.name.is_empty() {
                 "".to_string()
             } else {
-                format!("{}: ", c.name)
+                format!("{}: ", crate::parser::il::il_exp::written_name(&c.name))
             };
             format!("    {name}{} {} {}", lhs, c.constraint_type, rhs)
         });
